@@ -6,11 +6,15 @@ from props.C10 import run_models
 def run(rep, kf, tier, seed):
     run_models(rep, kf, tier, seed, "C14")
     run_models(rep, kf, tier, seed, "C14", config={"literal_enums": True}, tag="+literal_enums")
-    from props.common import run_bounded
+    # parser side: member table of an enum with ANY number of values (inductive contract)
+    from props.common import run_bounded, discharge_parallel
+    import contracts.enum_values as cev
+    discharge_parallel(rep, kf, [cev.values_contract()], "C14", tier, seed)
     run_bounded(rep, kf, "C14", ["enum_values", "enum_default"], tier)
     rep.trusted.extend(["CPython semantics of the supported subset as encoded in pyvc.symexec",
                         "enum.Enum(value) lookup: the member with that value or ValueError (symbolic construct)"]
                        + ["assumed library contract: " + t for t in libmodels.TRUSTED])
     rep.assumptions.append("document quantifier by schematic models + frame argument (paper, DESIGN 2.4); parser-side "
-                           "member naming (values_from_list) is covered under C09/C14 parser obligations when built")
+                           "member table (values_from_list): inductive contract, snake_case / remove_string_escapes by their "
+                           "contracts (deterministic functions), str(int) by the assumed library facts")
     return {"level": "proof"}
